@@ -338,22 +338,30 @@ def enc(v):
         return None
 
 
-def request(kind, port, payload, timeout, keep=None):
-    """one client exchange; returns (status, data), status in ok | timeout | closed | refused | error"""
+def request(kind, port, payload, timeout, alive=None):
+    """one client exchange; returns (status, data), status in ok | timeout | closed | refused | error.
+    The wait for the reply ends early only when alive() turns false (the server thread is gone)."""
     s = socket.socket(socket.AF_INET, socket.SOCK_DGRAM if kind == "udp" else socket.SOCK_STREAM)
     s.settimeout(timeout)
+    deadline = _time.time() + timeout
     try:
         try:
             if kind == "udp":
                 s.sendto(payload, (LOCAL, port))
-                data, _ = s.recvfrom(65535)
             else:
                 s.connect((LOCAL, port))
                 if payload:
                     s.sendall(payload)
-                data = s.recv(65535)
-                if not data:
-                    return "closed", None
+            while True:
+                s.settimeout(max(0.01, min(0.2, deadline - _time.time())))
+                try:
+                    data = s.recvfrom(65535)[0] if kind == "udp" else s.recv(65535)
+                    break
+                except socket.timeout:
+                    if _time.time() >= deadline or (alive is not None and not alive()):
+                        return "timeout", None
+            if not data and kind == "tcp":
+                return "closed", None
             return "ok", data
         except socket.timeout:
             return "timeout", None
@@ -416,7 +424,8 @@ class Live(object):
         """well-formed registrations; False if the registry does not even serve well-formed clients"""
         for names, port in PRE:
             for attempt in range(3):
-                st, data = request(self.kind, self.port, rc.encode(("RPYC", "REGISTER", (names, port))), self.probe_timeout)
+                st, data = request(self.kind, self.port, rc.encode(("RPYC", "REGISTER", (names, port))), self.probe_timeout,
+                                   self.alive)
                 if st == "ok":
                     break
                 if not self.alive():
@@ -454,10 +463,12 @@ class Prober(object):
         self.ctx, self.registry, self.kind, self.rng = ctx, registry, kind, rng
         self.live = None
         self.broken = False
+        self.stale = False
 
     def ensure(self):
-        if self.live is not None and self.live.alive():
+        if self.live is not None and self.live.alive() and not self.stale:
             return True
+        self.stale = False
         if self.live is not None:
             self.live.stop()
         self.live = Live(self.registry, self.kind)
@@ -476,9 +487,8 @@ class Prober(object):
         return True
 
     def restart(self):
-        if self.live is not None:
-            self.live.stop()
-            self.live = None
+        """the next input goes to a fresh registry (the current one is stopped then, when no client of ours holds it)"""
+        self.stale = True
 
     def probe(self, cls, witness, unresponsive_key=None):
         """True if the registry answered a well-formed query correctly; records the violation otherwise"""
@@ -486,7 +496,7 @@ class Prober(object):
         last = None
         for attempt in range(3):
             name = self.rng.choice(sorted(EXPECT))
-            st, data = request(self.kind, live.port, rc.encode(("RPYC", "QUERY", (name,))), live.probe_timeout)
+            st, data = request(self.kind, live.port, rc.encode(("RPYC", "QUERY", (name,))), live.probe_timeout, live.alive)
             last = st
             if st == "ok":
                 try:
